@@ -280,9 +280,21 @@ AfterRewind(j, i) ==
       a0 == IF HasDev("RewindKeepsPool") THEN sj.acc ELSE [p \in PIDs |-> <<>>]
       pm0 == IF HasDev("RewindKeepsProgramMap") THEN sj.pm ELSE {}
   IN Total0(RunPkts(units, [acc |-> a0, pm |-> pm0, delivered |-> buf, nread |-> 0], hist, 1))
+\* the same on a reader that cannot seek (Rewind reports -1, the reader stays where it is): the demuxer goes on with the rest of the
+\* input as a fresh one would - the per-pass state is dropped all the same
+Suffix(j) == SubSeq(hist, j + 1, Len(hist))
+FreshSuffix(j) == Total0(RunPkts(units, State0({}, <<>>), Suffix(j), 1))
+AfterRewindNoSeek(j, i) ==
+  LET sj == RunPkts(units, State0({}, <<>>), SubSeq(hist, 1, j), 1)
+      buf == IF HasDev("RewindKeepsBuffer") THEN SubSeq(sj.delivered, i + 1, Len(sj.delivered)) ELSE <<>>
+      a0 == IF HasDev("RewindKeepsPool") THEN sj.acc ELSE [p \in PIDs |-> <<>>]
+      pm0 == IF HasDev("RewindKeepsProgramMap") THEN sj.pm ELSE {}
+  IN Total0(RunPkts(units, [acc |-> a0, pm |-> pm0, delivered |-> buf, nread |-> 0], Suffix(j), 1))
 TakenAt(j) == LET sj == RunPkts(units, State0({}, <<>>), SubSeq(hist, 1, j), 1) IN 0..Len(sj.delivered)
 \* after Rewind at any point of consumption the demuxer delivers what a fresh one delivers - also when PMT-PID units precede their PAT
 \* (EarlyPMT = TRUE), where a kept program map ("RewindKeepsProgramMap") makes the difference
+C20_NoSeekClean == (Quiescent /\ nfault = 0) =>
+                     \A j \in 0..Len(hist) : \A i \in TakenAt(j) : Ids(AfterRewindNoSeek(j, i)) = Ids(FreshSuffix(j))
 C20_RewindFresh == (Quiescent /\ nfault = 0) =>
                      \A j \in 0..Len(hist) : \A i \in TakenAt(j) : Ids(AfterRewind(j, i)) = Ids(FreshRun)
 
